@@ -17,6 +17,7 @@ import (
 	"time"
 
 	"context"
+	"encoding/hex"
 
 	"cosmossdk.io/math"
 	"github.com/cosmos/cosmos-sdk/codec"
@@ -45,6 +46,13 @@ type item struct {
 	args map[string]any
 }
 
+// pairResult is what running the real pooling code on two items gave.
+type pairResult struct {
+	da, db  []byte
+	differs bool
+	atts    []any // C11: every attestation found in the store afterwards (key, key recomputed from the stored body, votes, fields in which a voter's submission differs from the stored body)
+}
+
 // cand is one crafted pair of items with a description of the exact inputs.
 type cand struct {
 	a, b *item
@@ -66,7 +74,10 @@ type kindDef struct {
 	shift  map[string]func() []cand
 	digest func(*item) ([]byte, error)
 	// pair, if set, runs the real pooling code on both items and returns the two identities and whether they were kept apart
-	pair func(a, b *item) (da, db []byte, differs bool, err error)
+	pair func(a, b *item) (*pairResult, error)
+	// class: crafted pairs for a value class of one field (mode -> field -> candidates): values that differ only in
+	// letter case / surrounding whitespace (strings), only after byte 20 / only in the first 12 bytes / shorter than 20 (bytes32)
+	class map[string]map[string]func() []cand
 }
 
 var (
@@ -166,7 +177,7 @@ func withCommon(m map[string]any) map[string]any {
 }
 
 func kindSubmitLogicCall() *kindDef {
-	return &kindDef{
+	k := &kindDef{
 		name: "SubmitLogicCall", family: "C05",
 		base: func() *item {
 			m := baseMessage()
@@ -192,10 +203,12 @@ func kindSubmitLogicCall() *kindDef {
 		}),
 		digest: qsmDigest,
 	}
+	k.class = bytes32Classes(k.base, "msg.submitLogicCall.senderAddress")
+	return k
 }
 
 func kindUploadUserSmartContract() *kindDef {
-	return &kindDef{
+	k := &kindDef{
 		name: "UploadUserSmartContract", family: "C05",
 		base: func() *item {
 			m := baseMessage()
@@ -221,6 +234,8 @@ func kindUploadUserSmartContract() *kindDef {
 		}),
 		digest: qsmDigest,
 	}
+	k.class = bytes32Classes(k.base, "msg.uploadUserSmartContract.senderAddress")
+	return k
 }
 
 func kindUploadSmartContract() *kindDef {
@@ -373,58 +388,181 @@ func attKeys(ctx sdk.Context, e *env.E1) map[string]bool {
 	return res
 }
 
-// claimPair lets two different validators submit the two claims to the REAL Keeper.Attest and reads back, from the raw
-// module store, the keys of the attestations that now exist: one key = the votes were pooled, two keys = kept apart.
-func claimPair(a, b *item) (da, db []byte, differs bool, err error) {
-	e := world()
-	ctx, _ := e.Ctx.CacheContext()
-	attest := func(it *item, v env.Val) ([]byte, error) {
-		c, ok := it.obj.(skywaytypes.EthereumClaim)
-		if !ok {
-			return nil, fmt.Errorf("%T is not an EthereumClaim", it.obj)
+// submission is what one validator handed to the msg server.
+type submission struct {
+	val       env.Val
+	submitted gogoproto.Message // snapshot taken before the call
+	key       []byte            // raw store key of the attestation this submission created (nil: none)
+	refused   string            // "" or why the claim never reached an attestation
+}
+
+// submitClaim sends the claim the way a transaction would: ValidateBasic (baseapp), then the REAL msg server on a cache
+// context written on success.  The legacy MsgBatchSendToEthClaim has no msg-server endpoint and goes to Keeper.Attest.
+func submitClaim(ctx sdk.Context, e *env.E1, it *item, v env.Val) (*submission, error) {
+	c, ok := it.obj.(skywaytypes.EthereumClaim)
+	if !ok {
+		return nil, fmt.Errorf("%T is not an EthereumClaim", it.obj)
+	}
+	c.SetOrchestrator(v.Acc)
+	if err := setPath(it.obj, "metadata.creator", v.Acc.String(), nil); err != nil {
+		return nil, err
+	}
+	if err := setPath(it.obj, "metadata.signers", []string{v.Acc.String()}, nil); err != nil {
+		return nil, err
+	}
+	if c.GetSkywayNonce() == 0 {
+		return nil, errors.New("nonce 0")
+	}
+	if err := e.Skyway.SetLastSkywayNonceByValidator(ctx, v.Val, c.GetChainReferenceId(), c.GetSkywayNonce()-1); err != nil {
+		return nil, err
+	}
+	pm, ok := it.obj.(gogoproto.Message)
+	if !ok {
+		return nil, fmt.Errorf("%T is not a proto message", it.obj)
+	}
+	snap, err := cloneMsg(pm)
+	if err != nil {
+		return nil, err
+	}
+	sub := &submission{val: v, submitted: snap}
+	if err := c.ValidateBasic(); err != nil {
+		sub.refused = "ValidateBasic: " + err.Error()
+		return sub, nil
+	}
+	before := attKeys(ctx, e)
+	err, _ = env.RunMsg(ctx, func(ctx sdk.Context) error {
+		switch m := it.obj.(type) {
+		case *skywaytypes.MsgSendToPalomaClaim:
+			_, err := e.SkywayMsg.SendToPalomaClaim(ctx, m)
+			return err
+		case *skywaytypes.MsgBatchSendToRemoteClaim:
+			_, err := e.SkywayMsg.BatchSendToRemoteClaim(ctx, m)
+			return err
+		case *skywaytypes.MsgLightNodeSaleClaim:
+			_, err := e.SkywayMsg.LightNodeSaleClaim(ctx, m)
+			return err
+		default:
+			anyc, err := codectypes.NewAnyWithValue(pm)
+			if err != nil {
+				return err
+			}
+			_, err = e.Skyway.Attest(ctx, c, anyc)
+			return err
 		}
-		c.SetOrchestrator(v.Acc)
-		if err := setPath(it.obj, "metadata.creator", v.Acc.String(), nil); err != nil {
+	})
+	for k := range attKeys(ctx, e) {
+		if !before[k] {
+			sub.key = []byte(k)
+		}
+	}
+	if err != nil {
+		sub.refused = err.Error()
+	}
+	return sub, nil
+}
+
+// cloneMsg copies a message through its wire form.
+func cloneMsg(m gogoproto.Message) (gogoproto.Message, error) {
+	bz, err := gogoproto.Marshal(m)
+	if err != nil {
+		return nil, err
+	}
+	n := reflect.New(reflect.TypeOf(m).Elem()).Interface().(gogoproto.Message)
+	if err := gogoproto.Unmarshal(bz, n); err != nil {
+		return nil, err
+	}
+	return n, nil
+}
+
+// bodyKey recomputes, from a claim body, the store key its attestation belongs under.
+func bodyKey(c skywaytypes.EthereumClaim) ([]byte, error) {
+	h, err := c.ClaimHash()
+	if err != nil {
+		return nil, err
+	}
+	return append([]byte(c.GetChainReferenceId()), skywaytypes.GetAttestationKey(c.GetSkywayNonce(), h)...), nil
+}
+
+// observeAtts lists every attestation in the raw module store: its key, the key recomputed from the STORED body, the
+// number of votes, and the fields in which the submission of any recorded voter differs from the stored body.
+func observeAtts(ctx sdk.Context, e *env.E1, subs []*submission) ([]any, error) {
+	res := []any{}
+	for _, k := range sortedKeys(attKeys(ctx, e)) {
+		var att skywaytypes.Attestation
+		if err := e.Cdc.Unmarshal(ctx.KVStore(e.Keys[skywaytypes.StoreKey]).Get([]byte(k)), &att); err != nil {
 			return nil, err
 		}
-		if err := setPath(it.obj, "metadata.signers", []string{v.Acc.String()}, nil); err != nil {
-			return nil, err
-		}
-		if c.GetSkywayNonce() == 0 {
-			return nil, errors.New("nonce 0")
-		}
-		if err := e.Skyway.SetLastSkywayNonceByValidator(ctx, v.Val, c.GetChainReferenceId(), c.GetSkywayNonce()-1); err != nil {
-			return nil, err
-		}
-		pm, ok := it.obj.(gogoproto.Message)
-		if !ok {
-			return nil, fmt.Errorf("%T is not a proto message", it.obj)
-		}
-		anyc, err := codectypes.NewAnyWithValue(pm)
+		body, err := e.Skyway.UnpackAttestationClaim(&att)
 		if err != nil {
 			return nil, err
 		}
-		before := attKeys(ctx, e)
-		_, aerr := e.Skyway.Attest(ctx, c, anyc)
-		for k := range attKeys(ctx, e) {
-			if !before[k] {
-				return []byte(k), nil
+		bk, err := bodyKey(body)
+		if err != nil {
+			return nil, err
+		}
+		diff := map[string]bool{}
+		unknown := 0
+		for _, vote := range att.Votes {
+			found := false
+			for _, s := range subs {
+				if s.val.Val.String() == vote {
+					found = true
+					for _, f := range diffFields(body, s.submitted) {
+						diff[f] = true
+					}
+				}
+			}
+			if !found {
+				unknown++
 			}
 		}
-		return nil, aerr // no new attestation: pooled onto an existing one, or the vote was refused
+		res = append(res, map[string]any{"key": hex.EncodeToString([]byte(k)), "body_key": hex.EncodeToString(bk), "votes": len(att.Votes),
+			"unknown_voters": unknown, "diff": sortedKeys(diff)})
 	}
-	da, err = attest(a, e.Vals[0])
+	return res, nil
+}
+
+// claimPair lets two different validators submit the two claims through the REAL msg server and reads back, from the raw
+// module store, the attestations that now exist.  The claims were pooled iff one attestation carries both votes; a second
+// claim that was refused counts as kept apart unless the key it would have been filed under is the first claim's key.
+func claimPair(a, b *item) (*pairResult, error) {
+	e := world()
+	ctx, _ := e.Ctx.CacheContext()
+	sa, err := submitClaim(ctx, e, a, e.Vals[0])
 	if err != nil {
-		return nil, nil, false, fmt.Errorf("attest base claim: %w", err)
+		return nil, fmt.Errorf("submit base claim: %w", err)
 	}
-	if da == nil {
-		return nil, nil, false, errors.New("attesting the base claim created no attestation")
+	if sa.key == nil {
+		return nil, fmt.Errorf("the base claim created no attestation: %s", sa.refused)
 	}
-	db, _ = attest(b, e.Vals[1])
-	if db == nil {
-		return da, da, false, nil
+	sb, err := submitClaim(ctx, e, b, e.Vals[1])
+	if err != nil {
+		return nil, fmt.Errorf("submit perturbed claim: %w", err)
 	}
-	return da, db, !bytes.Equal(da, db), nil
+	atts, err := observeAtts(ctx, e, []*submission{sa, sb})
+	if err != nil {
+		return nil, err
+	}
+	r := &pairResult{da: sa.key, db: sb.key, atts: atts}
+	switch {
+	case sb.key != nil:
+		r.differs = !bytes.Equal(sa.key, sb.key)
+	default:
+		// no second attestation: pooled, or refused
+		would, err := bodyKey(sb.submitted.(skywaytypes.EthereumClaim))
+		if err != nil {
+			return nil, err
+		}
+		r.db = would
+		pooled := false
+		for _, x := range atts {
+			if x.(map[string]any)["votes"].(int) >= 2 {
+				pooled = true
+			}
+		}
+		r.differs = !pooled && !bytes.Equal(would, sa.key)
+	}
+	return r, nil
 }
 
 var claimCommonAlt = map[string]any{
@@ -457,6 +595,92 @@ func lightNodeSale() *skywaytypes.MsgLightNodeSaleClaim {
 		SkywayNonce: 7, ClientAddress: accA, Amount: math.NewInt(5000), SmartContractAddress: addrA, CompassId: tsA}
 }
 
+// textClasses builds, for the string fields of a claim, the pairs that differ ONLY in letter case and ONLY by
+// surrounding whitespace.  letterful: a realistic value of the field that contains letters, and its mixed-case twin.
+func textClasses(base func() *item, letterful map[string][2]string) map[string]map[string]func() []cand {
+	res := map[string]map[string]func() []cand{"case": {}, "space": {}}
+	for f, vs := range letterful {
+		f, vs := f, vs
+		mk := func(va, vb string) (cand, error) {
+			a, b := base(), base()
+			if err := setPath(a.obj, f, va, nil); err != nil {
+				return cand{}, err
+			}
+			if err := setPath(b.obj, f, vb, nil); err != nil {
+				return cand{}, err
+			}
+			return cand{a, b, fmt.Sprintf("%s=%q ~ %s=%q, all else equal", f, va, f, vb)}, nil
+		}
+		res["case"][f] = func() []cand {
+			c, err := mk(vs[0], vs[1])
+			if err != nil {
+				panic(err)
+			}
+			return []cand{c}
+		}
+		res["space"][f] = func() []cand {
+			var cs []cand
+			for _, w := range [][2]string{{" ", ""}, {"", " "}, {"\t", ""}, {"", "\n"}, {" ", " "}} {
+				c, err := mk(vs[0], w[0]+vs[0]+w[1])
+				if err != nil {
+					panic(err)
+				}
+				cs = append(cs, c)
+			}
+			return cs
+		}
+	}
+	return res
+}
+
+const (
+	hexLower = "0xabcdefabcdefabcdefabcdefabcdefabcdefabcd"
+	hexMixed = "0xABCDEFabcdefABCDEFabcdefabcdefABCDEFabcd"
+)
+
+func mixedCase(s string) string {
+	h := len(s) / 2
+	return strings.ToUpper(s[:h]) + s[h:]
+}
+
+// bytes32Classes builds, for a bytes field that is delivered left-padded to 32 bytes, the pairs that differ only after
+// byte 20, only in the first 12 bytes, and values shorter than 20 bytes.
+func bytes32Classes(base func() *item, f string) map[string]map[string]func() []cand {
+	seq := func(n int) []byte {
+		b := make([]byte, n)
+		for i := range b {
+			b[i] = byte(0x11 + i)
+		}
+		return b
+	}
+	mk := func(va, vb []byte) cand {
+		a, b := base(), base()
+		if err := setPath(a.obj, f, va, a.anys); err != nil {
+			panic(err)
+		}
+		if err := setPath(b.obj, f, vb, b.anys); err != nil {
+			panic(err)
+		}
+		return cand{a, b, fmt.Sprintf("%s=0x%x ~ 0x%x, all else equal", f, va, vb)}
+	}
+	flip := func(b []byte, i int) []byte {
+		c := append([]byte{}, b...)
+		c[i] ^= 0x80
+		return c
+	}
+	return map[string]map[string]func() []cand{
+		"tail": {f: func() []cand {
+			return []cand{mk(seq(32), flip(seq(32), 31)), mk(seq(32), flip(seq(32), 20)), mk(seq(21), flip(seq(21), 20))}
+		}},
+		"head": {f: func() []cand {
+			return []cand{mk(seq(32), flip(seq(32), 0)), mk(seq(32), flip(seq(32), 11))}
+		}},
+		"short": {f: func() []cand {
+			return []cand{mk(seq(8), flip(seq(8), 0)), mk(seq(8), flip(seq(8), 7)), mk(seq(8), seq(20)), mk(seq(19), seq(20))}
+		}},
+	}
+}
+
 // lnsCands builds one crafted pair of light-node-sale claims per separator.
 func lnsCands(set func(sep string, a, b *skywaytypes.MsgLightNodeSaleClaim)) []cand {
 	var cs []cand
@@ -474,6 +698,26 @@ func lnsCands(set func(sep string, a, b *skywaytypes.MsgLightNodeSaleClaim)) []c
 func claimItem(c any) *item { return &item{obj: c, anys: map[string]any{}, args: map[string]any{}} }
 
 func kindsC11() []*kindDef {
+	ks := kindsC11raw()
+	letterful := map[string]map[string][2]string{
+		"MsgSendToPalomaClaim": {
+			"token_contract": {hexLower, hexMixed}, "ethereum_sender": {hexLower, hexMixed}, "paloma_receiver": {accA, mixedCase(accA)},
+			"compass_id": {tsA, mixedCase(tsA)}, "chain_reference_id": {"eth-a", "ETH-a"},
+		},
+		"MsgBatchSendToRemoteClaim": {"token_contract": {hexLower, hexMixed}, "compass_id": {tsA, mixedCase(tsA)}, "chain_reference_id": {"eth-a", "ETH-a"}},
+		"MsgLightNodeSaleClaim": {
+			"client_address": {accA, mixedCase(accA)}, "smart_contract_address": {hexLower, hexMixed},
+			"compass_id": {tsA, mixedCase(tsA)}, "chain_reference_id": {"eth-a", "ETH-a"},
+		},
+		"MsgBatchSendToEthClaim": {"token_contract": {hexLower, hexMixed}, "chain_reference_id": {"eth-a", "ETH-a"}},
+	}
+	for _, k := range ks {
+		k.class = textClasses(k.base, letterful[k.name])
+	}
+	return ks
+}
+
+func kindsC11raw() []*kindDef {
 	return []*kindDef{
 		{
 			name: "MsgSendToPalomaClaim", family: "C11",
@@ -591,22 +835,24 @@ func wireAny(m any) (*codectypes.Any, error) {
 }
 
 // proofPair: BytesToHash of both proofs, and the decision of the real libcons.VerifyEvidence.
-func proofPair(a, b *item) (da, db []byte, differs bool, err error) {
-	if da, err = proofDigest(a); err != nil {
-		return
+func proofPair(a, b *item) (*pairResult, error) {
+	da, err := proofDigest(a)
+	if err != nil {
+		return nil, err
 	}
-	if db, err = proofDigest(b); err != nil {
-		return
+	db, err := proofDigest(b)
+	if err != nil {
+		return nil, err
 	}
 	apart, err := pooledByLibcons(a, b)
 	if err != nil {
-		return nil, nil, false, fmt.Errorf("pooling: %w", err)
+		return nil, fmt.Errorf("pooling: %w", err)
 	}
 	// pooled although the hash inputs differ (or the reverse) would be a broken harness
 	if apart != !bytes.Equal(da, db) {
-		return nil, nil, false, fmt.Errorf("pooling decision (apart=%v) disagrees with the comparison of BytesToHash", apart)
+		return nil, fmt.Errorf("pooling decision (apart=%v) disagrees with the comparison of BytesToHash", apart)
 	}
-	return da, db, apart, nil
+	return &pairResult{da: da, db: db, differs: apart}, nil
 }
 
 func pooledByLibcons(a, b *item) (bool, error) {
